@@ -134,6 +134,10 @@ def run(res, proofs_ok, proofs_why):
     _shm.run_property("C18", res, proofs_ok, proofs_why, extra_part=stall_part)
     open_part(res)
     locks_part(res)
+    # whatever the daemon publishes, in whatever order: sequences of publications differing in one field (an
+    # as-of running backwards, the start-up record after a measurement, ...) read back by an attached client
+    from props import C03
+    C03.sequence_part(res, "C18")
 
 
 def replay(res, path):
